@@ -17,7 +17,7 @@ Interfaces: PerformanceConfig(enabled: bool = True), from_dict class method for 
 Implementation: Dataclass with validation and defaults, simple enabled flag (extensible)
 """
 
-from dataclasses import dataclass
+from dataclasses import dataclass, field
 from typing import Any
 
 
@@ -26,6 +26,13 @@ class PerformanceConfig:
     """Configuration for performance linter rules."""
 
     enabled: bool = True
+    # Per-rule switches: performance: {string-concat-loop: {enabled: false}, regex-in-loop: {...}}
+    rule_enabled: dict[str, bool] = field(default_factory=dict)
+
+    def for_rule(self, rule_name: str) -> "PerformanceConfig":
+        """Configuration as seen by one rule: its own switch combined with the linter's."""
+        own = self.rule_enabled.get(rule_name, True)
+        return PerformanceConfig(enabled=self.enabled and own, rule_enabled=self.rule_enabled)
 
     @classmethod
     def from_dict(cls, config: dict[str, Any], language: str | None = None) -> "PerformanceConfig":
@@ -38,6 +45,9 @@ class PerformanceConfig:
         Returns:
             PerformanceConfig instance with values from dictionary
         """
-        return cls(
-            enabled=config.get("enabled", True),
-        )
+        rule_enabled = {
+            str(key).replace("_", "-"): bool(value.get("enabled", True))
+            for key, value in config.items()
+            if isinstance(value, dict)
+        }
+        return cls(enabled=config.get("enabled", True), rule_enabled=rule_enabled)
